@@ -52,10 +52,13 @@ func (x *RIBMon) guarded(what string, fn func()) bool {
 	}
 	done := make(chan struct{})
 	go func() { fn(); close(done) }()
+	// (a stopped timer, not time.After: millions of these calls are made per run)
+	t := time.NewTimer(drv.Watchdog)
+	defer t.Stop()
 	select {
 	case <-done:
 		return true
-	case <-time.After(drv.Watchdog):
+	case <-t.C:
 		x.Dead = true
 		ev.NoteWatchdog(what)
 		return false
